@@ -8,6 +8,14 @@ import Mathlib.Data.List.Sym
 import Mathlib.Data.Nat.Choose.Basic
 import Mathlib.Algebra.BigOperators.Group.List.Defs
 import Mathlib.Algebra.Order.Field.Rat
+import Mathlib.Tactic.Ring
+import Mathlib.Tactic.Linarith
+import Mathlib.Algebra.Order.Ring.Abs
+import Mathlib.Algebra.Order.Monoid.Unbundled.Pow
+import Mathlib.Algebra.Order.Ring.Pow
+import Mathlib.Data.List.Forall2
+import Mathlib.Algebra.BigOperators.Group.List.Basic
+import Mathlib.Data.List.Perm.Basic
 
 namespace Coba.C20
 
@@ -653,9 +661,9 @@ theorem no_keyError (is : List Inter) (kw : List (Char × NsVal)) :
   · exact absurd hc h2
   · simp [h2]
 
-theorem encode_eq_spec' (is : List Inter) (kw : List (Char × NsVal))
-    (hne : ∀ t ∈ strTerms is, t ≠ []) : encode Cfg.fixed is kw = .ok (encodeS is kw) := by
-  unfold encode encodeS isSparseCall
+theorem encodeG_eq_spec (vmul : Rat → Rat → Rat) (is : List Inter) (kw : List (Char × NsVal))
+    (hne : ∀ t ∈ strTerms is, t ≠ []) : encodeG vmul Cfg.fixed is kw = .ok (encodeSG vmul is kw) := by
+  unfold encodeG encodeSG isSparseCall
   simp only [no_keyError, isSparse_kwargs, denseVals_kwargs, sparseFeats_kwargs]
   simp only [Bool.false_eq_true, if_false]
   have hfix : Cfg.fixed.fixPows = true := rfl
@@ -663,15 +671,22 @@ theorem encode_eq_spec' (is : List Inter) (kw : List (Char × NsVal))
   by_cases hs : kw.any (fun cv => cv.2.isSparse) = true
   · simp only [hs, if_true]
     rw [crossAll_fixed strMul "" (fun c => (sparseFeats c (nsVal kw c)).map (·.1)) is hne,
-        crossAll_fixed ratMul 1 (fun c => (sparseFeats c (nsVal kw c)).map (·.2)) is hne]
+        crossAll_fixed vmul 1 (fun c => (sparseFeats c (nsVal kw c)).map (·.2)) is hne]
     simp only
-    rw [← termsS_map pairMul pairOne strMul "" (·.1) (fun _ _ => rfl) rfl,
-        ← termsS_map pairMul pairOne ratMul 1 (·.2) (fun _ _ => rfl) rfl, zipT_fst_snd]
+    rw [← termsS_map (pairMulG vmul) pairOne strMul "" (·.1) (fun _ _ => rfl) rfl,
+        ← termsS_map (pairMulG vmul) pairOne vmul 1 (·.2) (fun _ _ => rfl) rfl, zipT_fst_snd]
     rfl
   · simp only [hs]
-    rw [crossAll_fixed ratMul 1 (fun c => denseVals (nsVal kw c)) is hne]
+    rw [crossAll_fixed vmul 1 (fun c => denseVals (nsVal kw c)) is hne]
     rfl
 
+theorem encodeSG_ratMul (is : List Inter) (kw : List (Char × NsVal)) :
+    encodeSG ratMul is kw = encodeS is kw := rfl
+
+theorem encode_eq_spec' (is : List Inter) (kw : List (Char × NsVal))
+    (hne : ∀ t ∈ strTerms is, t ≠ []) : encode Cfg.fixed is kw = .ok (encodeS is kw) := by
+  unfold encode
+  rw [encodeG_eq_spec ratMul is kw hne, encodeSG_ratMul]
 
 /-! ## Part 6: the combinations are exactly the multisets, each once -/
 section
@@ -822,7 +837,7 @@ theorem encode_empty_term_error' (is : List Inter) (kw : List (Char × NsVal))
   have hmem : [] ∈ crossPows Cfg.fixed is := by
     rw [crossPows_fixed, List.mem_map]
     exact ⟨[], (mem_dedupFirst _ _).2 h, rfl⟩
-  unfold encode
+  unfold encode encodeG
   simp only [no_keyError, Bool.false_eq_true, if_false]
   split
   · rw [crossAll_nil_mem strMul _ _ hmem]
@@ -935,5 +950,454 @@ theorem encode_history_eq_spec' (is : List Inter) (calls : List (List (Char × N
   apply List.map_congr_left
   intro kw _
   exact encode_eq_spec' is kw hne
+
+/-! ## Part 8 (phase 2): length of the dense encoding; distinct names -/
+
+/-! length of the dense encoding -/
+theorem chooseNat_eq : ∀ n k, chooseNat n k = Nat.choose n k
+  | _, 0 => by simp [chooseNat]
+  | 0, k + 1 => by simp [chooseNat]
+  | n + 1, k + 1 => by rw [chooseNat, chooseNat_eq n k, chooseNat_eq n (k + 1), Nat.choose_succ_succ]
+
+section
+variable {α : Type} (mul : α → α → α) (one : α)
+
+theorem outer_length (a b : List α) : (outer mul a b).length = a.length * b.length := by
+  induction a with
+  | nil => simp [outer]
+  | cons x a ih =>
+    simp only [outer, List.flatMap_cons, List.length_append, List.length_map, List.length_cons] at *
+    rw [ih]; ring
+
+theorem foldl_mul_init (l : List Nat) (a : Nat) : l.foldl (· * ·) a = a * l.foldl (· * ·) 1 := by
+  induction l generalizing a with
+  | nil => simp
+  | cons x l ih => simp only [List.foldl]; rw [ih (a * x), ih (1 * x)]; ring
+
+theorem foldl_add_init (l : List Nat) (a : Nat) : l.foldl (· + ·) a = a + l.foldl (· + ·) 0 := by
+  induction l generalizing a with
+  | nil => simp
+  | cons x l ih => simp only [List.foldl]; rw [ih (a + x), ih (0 + x)]; ring
+
+theorem foldl_outer_length (vs : List (List α)) (v : List α) :
+    (vs.foldl (outer mul) v).length = v.length * (vs.map List.length).foldl (· * ·) 1 := by
+  induction vs generalizing v with
+  | nil => simp
+  | cons w vs ih =>
+    simp only [List.foldl, List.map_cons]
+    rw [ih, outer_length, foldl_mul_init _ (1 * w.length)]; ring
+
+theorem outerAll_length (vs : List (List α)) (h : vs ≠ []) :
+    (outerAll mul vs).length = (vs.map List.length).foldl (· * ·) 1 := by
+  cases vs with
+  | nil => exact absurd rfl h
+  | cons v vs =>
+    simp only [outerAll, List.map_cons, List.foldl]
+    rw [foldl_outer_length, foldl_mul_init _ (1 * v.length)]; ring
+
+theorem termS_length (F : Char → List α) (t : List Char) (ht : t ≠ []) :
+    (termS mul one F t).length = termLen (fun c => (F c).length) t := by
+  unfold termS termLen
+  rw [outerAll_length mul _ (by simpa using factors_ne_nil t ht), List.map_map]
+  congr 1
+  apply List.map_congr_left
+  intro cp _
+  simp [monos_length', chooseNat_eq]
+
+theorem termsS_length (F : Char → List α) (ts : List (List Char)) (h : ∀ t ∈ ts, t ≠ []) :
+    (termsS mul one F ts).length = (ts.map (termLen (fun c => (F c).length))).foldl (· + ·) 0 := by
+  induction ts with
+  | nil => rfl
+  | cons t ts ih =>
+    simp only [termsS, List.flatMap_cons, List.length_append, List.map_cons, List.foldl] at *
+    rw [ih (fun t' h' => h t' (List.mem_cons_of_mem _ h')), termS_length mul one F t (h t List.mem_cons_self),
+        foldl_add_init _ (0 + _)]; ring
+end
+
+theorem encode_length_spec' (is : List Inter) (kw : List (Char × NsVal))
+    (hne : ∀ t ∈ strTerms is, t ≠ []) (hd : isSparseCall kw = false) :
+    ∃ vs, encode Cfg.fixed is kw = .ok (.dense vs) ∧ vs.length = encodeLen is kw := by
+  rw [encode_eq_spec' is kw hne]
+  unfold encodeS encodeLen
+  rw [hd]
+  simp only [Bool.false_eq_true, if_false]
+  have hl := termsS_length ratMul 1 (featsDense kw) (dedupFirst (strTerms is))
+    (fun t ht => hne t ((mem_dedupFirst _ _).1 ht))
+  by_cases hc : constant is ≠ 0
+  · rw [if_pos hc, if_pos hc]; exact ⟨_, rfl, by simp [hl]; omega⟩
+  · rw [if_neg hc, if_neg hc]; exact ⟨_, rfl, by simp [hl]⟩
+
+/-! distinct names: nothing is merged -/
+def rawNames (c : Char) (v : NsVal) : List String :=
+  (makeDict v).map (fun kv => String.singleton c ++ (handleEntry kv).1.fmt)
+
+theorem sparseFeats_of_distinct (c : Char) (v : NsVal) (h : (rawNames c v).Nodup) :
+    sparseFeats c v = (makeDict v).map (fun kv => (String.singleton c ++ (handleEntry kv).1.fmt, (handleEntry kv).2)) := by
+  unfold sparseFeats
+  have h1 : (((makeDict v).map handleEntry).map (·.1)).Nodup := by
+    unfold rawNames at h
+    rw [List.map_map]
+    have : (makeDict v).map (fun kv => String.singleton c ++ (handleEntry kv).1.fmt)
+        = ((makeDict v).map ((·.1) ∘ handleEntry)).map (fun k => String.singleton c ++ k.fmt) := by
+      rw [List.map_map]; rfl
+    rw [this] at h
+    exact List.Nodup.of_map _ h
+  rw [dictOf_of_nodup_keys _ h1, List.map_map]
+  rw [dictOf_of_nodup_keys]
+  · rfl
+  · rw [List.map_map]; exact h
+
+theorem encode_sparse_faithful_partial' (is : List Inter) (kw : List (Char × NsVal))
+    (hne : ∀ t ∈ strTerms is, t ≠ []) (hs : isSparseCall kw = true)
+    (hk : ((termsS pairMul pairOne (featsSparse kw) (dedupFirst (strTerms is))).map (·.1)
+            ++ (if constant is ≠ 0 then ["const"] else [])).Nodup) :
+    encode Cfg.fixed is kw = .ok (.sparse (termsS pairMul pairOne (featsSparse kw) (dedupFirst (strTerms is))
+            ++ (if constant is ≠ 0 then [("const", constant is)] else []))) := by
+  rw [encode_sparse_eq_spec' is kw hne hs]
+  simp only
+  rw [List.nodup_append] at hk
+  obtain ⟨hk1, _, hk3⟩ := hk
+  rw [dictOf_of_nodup_keys _ hk1]
+  by_cases hc : constant is ≠ 0
+  · rw [if_pos hc, if_pos hc] at *
+    rw [dictSet_not_mem]
+    intro hm
+    exact hk3 "const" hm "const" (by simp) rfl
+  · rw [if_neg hc, if_neg hc]; simp
+
+
+/-! ## Part 9 (phase 2): the callers' term lists -/
+
+theorem mem_strTerms (l : List Inter) (t : List Char) : t ∈ strTerms l ↔ Inter.term t ∈ l := by
+  induction l with
+  | nil => simp [strTerms]
+  | cons i l ih =>
+    cases i with
+    | num q => simp [strTerms, ih]
+    | term u => simp [strTerms, ih]
+
+theorem learner_terms_nonempty' (fs : List Inter) :
+    ∀ t ∈ strTerms (learnerTerms false fs), t ≠ [] := by
+  intro t ht
+  rw [mem_strTerms] at ht
+  simp only [learnerTerms, Bool.false_eq_true, if_false] at ht
+  rw [mem_dedupFirst, List.mem_filter] at ht
+  intro h
+  subst h
+  simp [Inter.truthy] at ht
+
+theorem synthetic_terms_nonempty' (nCtx nAct : Nat) (fs : List (List Char)) :
+    ∀ t ∈ strTerms (syntheticTerms nCtx nAct fs), t ≠ [] := by
+  intro t ht
+  rw [mem_strTerms] at ht
+  simp only [syntheticTerms, List.mem_map] at ht
+  obtain ⟨u, hu, hut⟩ := ht
+  cases hut
+  rw [mem_dedupFirst, List.mem_filter] at hu
+  intro h
+  subst h
+  simp at hu
+
+theorem wellformed_nonempty (is : List Inter) (h : wellformedTerms is = true) :
+    ∀ t ∈ strTerms is, t ≠ [] := by
+  intro t ht he
+  subst he
+  unfold wellformedTerms at h
+  rw [List.all_eq_true] at h
+  have := h [] ht
+  simp at this
+
+theorem learner_encode_eq_spec' (fs : List Inter) (kw : List (Char × NsVal)) :
+    encode Cfg.fixed (learnerTerms false fs) kw = .ok (encodeS (learnerTerms false fs) kw) :=
+  encode_eq_spec' _ kw (learner_terms_nonempty' fs)
+
+theorem synthetic_encode_eq_spec' (nCtx nAct : Nat) (fs : List (List Char)) (kw : List (Char × NsVal)) :
+    encode Cfg.fixed (syntheticTerms nCtx nAct fs) kw = .ok (encodeS (syntheticTerms nCtx nAct fs) kw) :=
+  encode_eq_spec' _ kw (synthetic_terms_nonempty' nCtx nAct fs)
+
+theorem wellformed_encode_eq_spec' (is : List Inter) (kw : List (Char × NsVal)) (h : wellformedTerms is = true) :
+    encode Cfg.fixed is kw = .ok (encodeS is kw) :=
+  encode_eq_spec' is kw (wellformed_nonempty is h)
+
+
+/-! ## Part 10 (phase 2): floating-point products, standard model -/
+
+/-- standard model of floating-point multiplication with unit roundoff `u` (no under/overflow):
+the result is the exact product times `1+ε` with `|ε| ≤ u`, and multiplying by `1` is exact -/
+def FloatMul (u : Rat) (fmul : Rat → Rat → Rat) : Prop :=
+  (∀ a, fmul a 1 = a) ∧ ∀ a b, ∃ ε, -u ≤ ε ∧ ε ≤ u ∧ fmul a b = a * b * (1 + ε)
+
+/-- `x` equals `y` up to `m` roundings: `x = y·δ` with `(1-u)^m ≤ δ ≤ (1+u)^m` -/
+def Approx (u : Rat) (m : Nat) (x y : Rat) : Prop :=
+  ∃ δ, x = y * δ ∧ (1 - u) ^ m ≤ δ ∧ δ ≤ (1 + u) ^ m
+
+theorem approx_refl (u : Rat) (x : Rat) : Approx u 0 x x := ⟨1, by ring, by simp, by simp⟩
+
+theorem approx_mono {u : Rat} (h0 : 0 ≤ u) (h1 : u ≤ 1) {m m' : Nat} (h : m ≤ m') {x y : Rat}
+    (hx : Approx u m x y) : Approx u m' x y := by
+  obtain ⟨δ, hδ, hl, hr⟩ := hx
+  refine ⟨δ, hδ, ?_, ?_⟩
+  · exact le_trans (pow_le_pow_of_le_one (by linarith) (by linarith) h) hl
+  · exact le_trans hr (pow_le_pow_right₀ (by linarith) h)
+
+theorem approx_mul {u : Rat} {fmul : Rat → Rat → Rat} (hf : FloatMul u fmul) (h0 : 0 ≤ u) (h1 : u ≤ 1)
+    {m1 m2 : Nat} {x y x' y' : Rat} (hx : Approx u m1 x y) (hx' : Approx u m2 x' y') :
+    Approx u (m1 + m2 + 1) (fmul x x') (y * y') := by
+  obtain ⟨δ1, rfl, l1, r1⟩ := hx
+  obtain ⟨δ2, rfl, l2, r2⟩ := hx'
+  obtain ⟨ε, e1, e2, he⟩ := hf.2 (y * δ1) (y' * δ2)
+  have a0 : (0 : Rat) ≤ 1 - u := by linarith
+  have p1 : (0 : Rat) ≤ (1 - u) ^ m1 := pow_nonneg a0 _
+  have p2 : (0 : Rat) ≤ (1 - u) ^ m2 := pow_nonneg a0 _
+  have d1 : 0 ≤ δ1 := le_trans p1 l1
+  have d2 : 0 ≤ δ2 := le_trans p2 l2
+  refine ⟨δ1 * δ2 * (1 + ε), by rw [he]; ring, ?_, ?_⟩
+  · rw [pow_succ, pow_add]
+    apply mul_le_mul (mul_le_mul l1 l2 p2 d1) (by linarith) a0 (mul_nonneg d1 d2)
+  · rw [pow_succ, pow_add]
+    have q1 : (0 : Rat) ≤ (1 + u) ^ m1 := pow_nonneg (by linarith) _
+    have q2 : (0 : Rat) ≤ (1 + u) ^ m2 := pow_nonneg (by linarith) _
+    apply mul_le_mul (mul_le_mul r1 r2 d2 q1) (by linarith) (by linarith) (mul_nonneg q1 q2)
+
+/-- the usual form: relative error at most `(1+u)^m - 1` -/
+theorem approx_abs {u : Rat} (h0 : 0 ≤ u) (h1 : u ≤ 1) {m : Nat} {x y : Rat} (h : Approx u m x y) :
+    |x - y| ≤ ((1 + u) ^ m - 1) * |y| := by
+  obtain ⟨δ, rfl, l, r⟩ := h
+  have hb1 : 1 + (m : Rat) * u ≤ (1 + u) ^ m := one_add_mul_le_pow (by linarith) m
+  have hb2 : 1 + (m : Rat) * (-u) ≤ (1 + -u) ^ m := one_add_mul_le_pow (by linarith) m
+  have hb2' : 1 - (m : Rat) * u ≤ (1 - u) ^ m := by simpa [sub_eq_add_neg] using hb2
+  have : y * δ - y = y * (δ - 1) := by ring
+  rw [this, abs_mul, mul_comm]
+  apply mul_le_mul_of_nonneg_right _ (abs_nonneg y)
+  rw [abs_le]
+  constructor <;> linarith
+
+section
+variable {u : Rat} {fmul : Rat → Rat → Rat}
+
+theorem monoProd_approx (hf : FloatMul u fmul) (h0 : 0 ≤ u) (h1 : u ≤ 1) :
+    ∀ c : List Rat, Approx u (c.length - 1) (monoProd fmul 1 c) (monoProd ratMul 1 c) := by
+  intro c
+  induction c with
+  | nil => exact approx_refl u 1
+  | cons v r ih =>
+    cases r with
+    | nil =>
+      simp only [monoProd, List.length_cons, List.length_nil]
+      rw [hf.1 v]
+      have : ratMul v 1 = v := by simp [ratMul]
+      rw [this]
+      exact approx_refl u v
+    | cons w r =>
+      have := approx_mul hf h0 h1 (approx_refl u v) ih
+      simp only [List.length_cons] at this ⊢
+      have e : (0 + (r.length + 1 - 1) + 1) = r.length + 1 + 1 - 1 := by omega
+      rw [e] at this
+      exact this
+
+theorem forall₂_map_same {α : Type} {R : Rat → Rat → Prop} (f g : α → Rat) :
+    ∀ l : List α, (∀ a ∈ l, R (f a) (g a)) → List.Forall₂ R (l.map f) (l.map g) := by
+  intro l
+  induction l with
+  | nil => intro _; exact List.Forall₂.nil
+  | cons a l ih =>
+    intro h
+    exact List.Forall₂.cons (h a List.mem_cons_self) (ih (fun b hb => h b (List.mem_cons_of_mem _ hb)))
+
+theorem monos_approx (hf : FloatMul u fmul) (h0 : 0 ≤ u) (h1 : u ≤ 1) (k : Nat) (xs : List Rat) :
+    List.Forall₂ (Approx u (k - 1)) (monos fmul 1 k xs) (monos ratMul 1 k xs) := by
+  unfold monos
+  apply forall₂_map_same
+  intro c hc
+  have := monoProd_approx hf h0 h1 c
+  rw [(multichoose_sound k xs c hc).1] at this
+  exact this
+
+theorem outer_approx (hf : FloatMul u fmul) (h0 : 0 ≤ u) (h1 : u ≤ 1) {m1 m2 : Nat} :
+    ∀ {A A' : List Rat}, List.Forall₂ (Approx u m1) A A' → ∀ {B B' : List Rat}, List.Forall₂ (Approx u m2) B B' →
+      List.Forall₂ (Approx u (m1 + m2 + 1)) (outer fmul A B) (outer ratMul A' B') := by
+  intro A A' hA
+  induction hA with
+  | nil => intro B B' _; exact List.Forall₂.nil
+  | @cons a a' A A' ha _ ih =>
+    intro B B' hB
+    simp only [outer, List.flatMap_cons]
+    apply List.rel_append
+    · clear ih
+      induction hB with
+      | nil => exact List.Forall₂.nil
+      | cons hb _ ihb => exact List.Forall₂.cons (approx_mul hf h0 h1 ha hb) ihb
+    · exact ih hB
+
+theorem foldl_outer_approx (hf : FloatMul u fmul) (h0 : 0 ≤ u) (h1 : u ≤ 1) (F : Char → List Rat) :
+    ∀ (cp : List (Char × Nat)), (∀ kp ∈ cp, 1 ≤ kp.2) → ∀ (m : Nat) (acc acc' : List Rat),
+      List.Forall₂ (Approx u m) acc acc' →
+      List.Forall₂ (Approx u (m + (cp.map (·.2)).sum))
+        ((cp.map (fun kp => monos fmul 1 kp.2 (F kp.1))).foldl (outer fmul) acc)
+        ((cp.map (fun kp => monos ratMul 1 kp.2 (F kp.1))).foldl (outer ratMul) acc') := by
+  intro cp
+  induction cp with
+  | nil => intro _ m acc acc' h; simpa using h
+  | cons kp cp ih =>
+    intro hp m acc acc' h
+    simp only [List.map_cons, List.foldl, List.sum_cons]
+    have hk := hp kp List.mem_cons_self
+    have := outer_approx hf h0 h1 h (monos_approx hf h0 h1 kp.2 (F kp.1))
+    have e : m + (kp.2 - 1) + 1 = m + kp.2 := by omega
+    rw [e] at this
+    have r := ih (fun q hq => hp q (List.mem_cons_of_mem _ hq)) (m + kp.2) _ _ this
+    rw [Nat.add_assoc] at r
+    exact r
+
+theorem sum_factors (t : List Char) : ((factors t).map (·.2)).sum = t.length := by
+  unfold factors
+  rw [List.map_map]
+  have hp : (dedupFirst t).Perm t.dedup :=
+    (List.perm_ext_iff_of_nodup (nodup_dedupFirst t) (List.nodup_dedup t)).2
+      (fun a => by rw [mem_dedupFirst, List.mem_dedup])
+  have := (hp.map (fun c => t.count c)).sum_eq
+  simp only [Function.comp_def]
+  rw [this]
+  exact List.sum_map_count_dedup_eq_length t
+
+theorem termS_approx (hf : FloatMul u fmul) (h0 : 0 ≤ u) (h1 : u ≤ 1) (F : Char → List Rat)
+    (t : List Char) (ht : t ≠ []) :
+    List.Forall₂ (Approx u (t.length - 1)) (termS fmul 1 F t) (termS ratMul 1 F t) := by
+  unfold termS
+  have hs := sum_factors t
+  have hpos : ∀ kp ∈ factors t, 1 ≤ kp.2 := fun kp hkp => (mem_factors t kp hkp).2.2.1
+  cases hfac : factors t with
+  | nil => exact absurd hfac (factors_ne_nil t ht)
+  | cons kp cp =>
+    rw [hfac] at hs hpos
+    simp only [List.map_cons, outerAll]
+    have r := foldl_outer_approx hf h0 h1 F cp (fun q hq => hpos q (List.mem_cons_of_mem _ hq)) (kp.2 - 1) _ _
+      (monos_approx hf h0 h1 kp.2 (F kp.1))
+    have hk := hpos kp List.mem_cons_self
+    simp only [List.map_cons, List.sum_cons] at hs
+    have e : kp.2 - 1 + (cp.map (·.2)).sum = t.length - 1 := by omega
+    rw [e] at r
+    exact r
+
+def maxDeg (is : List Inter) : Nat := (strTerms is).foldl (fun m t => max m t.length) 0
+
+theorem termsS_approx (hf : FloatMul u fmul) (h0 : 0 ≤ u) (h1 : u ≤ 1) (F : Char → List Rat) (D : Nat) :
+    ∀ (ts : List (List Char)), (∀ t ∈ ts, t ≠ [] ∧ t.length ≤ D) →
+      List.Forall₂ (Approx u (D - 1)) (termsS fmul 1 F ts) (termsS ratMul 1 F ts) := by
+  intro ts
+  induction ts with
+  | nil => intro _; exact List.Forall₂.nil
+  | cons t ts ih =>
+    intro h
+    simp only [termsS, List.flatMap_cons]
+    apply List.rel_append
+    · have ht := h t List.mem_cons_self
+      have := termS_approx hf h0 h1 F t ht.1
+      exact this.imp (fun _ _ hxy => approx_mono h0 h1 (by omega) hxy)
+    · exact ih (fun t' h' => h t' (List.mem_cons_of_mem _ h'))
+
+theorem encode_float_model' (hf : FloatMul u fmul) (h0 : 0 ≤ u) (h1 : u ≤ 1)
+    (is : List Inter) (kw : List (Char × NsVal))
+    (hne : ∀ t ∈ strTerms is, t ≠ []) (hd : isSparseCall kw = false) :
+    ∃ vs vs' : List Rat,
+      encodeG fmul Cfg.fixed is kw = .ok (.dense ((if constant is ≠ 0 then [constant is] else []) ++ vs)) ∧
+      encode Cfg.fixed is kw = .ok (.dense ((if constant is ≠ 0 then [constant is] else []) ++ vs')) ∧
+      List.Forall₂ (Approx u (maxDeg is - 1)) vs vs' := by
+  refine ⟨termsS fmul 1 (featsDense kw) (dedupFirst (strTerms is)),
+          termsS ratMul 1 (featsDense kw) (dedupFirst (strTerms is)), ?_, ?_, ?_⟩
+  · rw [encodeG_eq_spec fmul is kw hne, encodeSG, hd]
+    by_cases hc : constant is ≠ 0 <;> simp [hc]
+  · rw [encode_eq_spec' is kw hne, encodeS, hd]
+    by_cases hc : constant is ≠ 0 <;> simp [hc]
+  · apply termsS_approx hf h0 h1
+    intro t ht
+    have hm := (mem_dedupFirst _ _).1 ht
+    exact ⟨hne t hm, foldl_max_ge_mem (fun t : List Char => t.length) (strTerms is) 0 t hm⟩
+
+/-- IEEE double precision: `u = 2^-53` satisfies the side conditions -/
+theorem u53_ok : (0 : Rat) ≤ 1 / 2 ^ 53 ∧ (1 : Rat) / 2 ^ 53 ≤ 1 := by norm_num
+
+/-! sparse: same names, values up to the same number of roundings -/
+def PairRel (R : Rat → Rat → Prop) (p q : String × Rat) : Prop := p.1 = q.1 ∧ R p.2 q.2
+
+theorem dictSet_rel {R : Rat → Rat → Prop} (k : String) {v v' : Rat} (hv : R v v') :
+    ∀ {d d' : List (String × Rat)}, List.Forall₂ (PairRel R) d d' →
+      List.Forall₂ (PairRel R) (dictSet k v d) (dictSet k v' d') := by
+  intro d d' h
+  induction h with
+  | nil => exact List.Forall₂.cons ⟨rfl, hv⟩ List.Forall₂.nil
+  | @cons p q d d' hpq _ ih =>
+    obtain ⟨pk, pv⟩ := p
+    obtain ⟨qk, qv⟩ := q
+    obtain ⟨hk, hr⟩ := hpq
+    simp only at hk
+    subst hk
+    simp only [dictSet]
+    by_cases he : pk = k
+    · rw [if_pos he, if_pos he]; exact List.Forall₂.cons ⟨rfl, hv⟩ (by assumption)
+    · rw [if_neg he, if_neg he]; exact List.Forall₂.cons ⟨rfl, hr⟩ ih
+
+theorem dictOf_rel {R : Rat → Rat → Prop} :
+    ∀ {l l' : List (String × Rat)}, List.Forall₂ (PairRel R) l l' →
+      ∀ {d d' : List (String × Rat)}, List.Forall₂ (PairRel R) d d' →
+      List.Forall₂ (PairRel R) (l.foldl (fun d kv => dictSet kv.1 kv.2 d) d) (l'.foldl (fun d kv => dictSet kv.1 kv.2 d) d') := by
+  intro l l' h
+  induction h with
+  | nil => intro d d' hd; exact hd
+  | @cons p q l l' hpq _ ih =>
+    intro d d' hd
+    simp only [List.foldl]
+    apply ih
+    rw [hpq.1]
+    exact dictSet_rel q.1 hpq.2 hd
+
+theorem pairRel_of_maps {R : Rat → Rat → Prop} :
+    ∀ (l l' : List (String × Rat)), l.map (·.1) = l'.map (·.1) → List.Forall₂ R (l.map (·.2)) (l'.map (·.2)) →
+      List.Forall₂ (PairRel R) l l' := by
+  intro l
+  induction l with
+  | nil => intro l' hk _; cases l' with
+    | nil => exact List.Forall₂.nil
+    | cons q l' => simp at hk
+  | cons p l ih =>
+    intro l' hk hv
+    cases l' with
+    | nil => simp at hk
+    | cons q l' =>
+      simp only [List.map_cons, List.cons.injEq] at hk
+      simp only [List.map_cons, List.forall₂_cons] at hv
+      exact List.Forall₂.cons ⟨hk.1, hv.1⟩ (ih l' hk.2 hv.2)
+
+theorem encode_float_model_sparse' (hf : FloatMul u fmul) (h0 : 0 ≤ u) (h1 : u ≤ 1)
+    (is : List Inter) (kw : List (Char × NsVal))
+    (hne : ∀ t ∈ strTerms is, t ≠ []) (hs : isSparseCall kw = true) :
+    ∃ kvs kvs' : List (String × Rat),
+      encodeG fmul Cfg.fixed is kw = .ok (.sparse kvs) ∧ encode Cfg.fixed is kw = .ok (.sparse kvs') ∧
+      List.Forall₂ (PairRel (Approx u (maxDeg is - 1))) kvs kvs' := by
+  have hterms : ∀ t ∈ dedupFirst (strTerms is), t ≠ [] ∧ t.length ≤ maxDeg is := by
+    intro t ht
+    have hm := (mem_dedupFirst _ _).1 ht
+    exact ⟨hne t hm, foldl_max_ge_mem (fun t : List Char => t.length) (strTerms is) 0 t hm⟩
+  have hent : List.Forall₂ (PairRel (Approx u (maxDeg is - 1)))
+      (termsS (pairMulG fmul) pairOne (featsSparse kw) (dedupFirst (strTerms is)))
+      (termsS pairMul pairOne (featsSparse kw) (dedupFirst (strTerms is))) := by
+    apply pairRel_of_maps
+    · rw [termsS_map (pairMulG fmul) pairOne strMul "" (·.1) (fun _ _ => rfl) rfl,
+          termsS_map pairMul pairOne strMul "" (·.1) (fun _ _ => rfl) rfl]
+    · rw [termsS_map (pairMulG fmul) pairOne fmul 1 (·.2) (fun _ _ => rfl) rfl,
+          termsS_map pairMul pairOne ratMul 1 (·.2) (fun _ _ => rfl) rfl]
+      exact termsS_approx hf h0 h1 _ _ _ hterms
+  have hdict := dictOf_rel hent (List.Forall₂.nil (R := PairRel (Approx u (maxDeg is - 1))))
+  by_cases hc : constant is ≠ 0
+  · refine ⟨_, _, ?_, ?_, dictSet_rel "const" (approx_mono h0 h1 (Nat.zero_le _) (approx_refl u (constant is))) hdict⟩
+    · rw [encodeG_eq_spec fmul is kw hne, encodeSG, hs]; simp [hc, dictOf]
+    · rw [encode_eq_spec' is kw hne, encodeS, hs]; simp [hc, dictOf]
+  · refine ⟨_, _, ?_, ?_, hdict⟩
+    · rw [encodeG_eq_spec fmul is kw hne, encodeSG, hs]; simp [hc, dictOf]
+    · rw [encode_eq_spec' is kw hne, encodeS, hs]; simp [hc, dictOf]
+end
+
+theorem floatMul_exact (u : Rat) (h0 : 0 ≤ u) : FloatMul u ratMul :=
+  ⟨fun a => by simp [ratMul], fun a b => ⟨0, by linarith, h0, by simp [ratMul]⟩⟩
 
 end Coba.C20
